@@ -2032,7 +2032,9 @@ class Cache:
                     error = set(paths) - filenames
 
                     for full_path in error:
-                        if DBNAME in full_path:
+                        name = op.basename(full_path)
+
+                        if dirpath == self._directory and DBNAME in name:
                             continue
 
                         message = 'unknown file: %s' % full_path
